@@ -1,7 +1,7 @@
-(* C07: statements about the regenerated util.resolve_dtype, obtained from the typed model through the
-   refinement lemma. *)
-Require Import SF.Prelude SF.PySlice SF.Dtype SF.PyDyn Gen.Gen_util SF.Coerce.
-Require Import Proofs.CoerceRefine Proofs.CoerceHolds.
+(* C07: statements about the kernels regenerated from the source (Gen.Gen_util, Gen.Gen_c07), obtained from the
+   typed models through the refinement lemmas. *)
+Require Import SF.Prelude SF.PySlice SF.Dtype SF.PyDyn Gen.Gen_util Gen.Gen_c07 SF.Coerce SF.CoerceDyn.
+Require Import Proofs.CoerceRefine Proofs.CoerceHolds Proofs.CoercePlans.
 Local Open Scope string_scope.
 Local Open Scope Z_scope.
 
@@ -13,4 +13,61 @@ Lemma gen_resolve_no_loss d1 d2 v :
 Proof.
   intros W1 W2 L H. exists (resolve d1 d2). split; [apply resolve_refines|].
   intros T. apply resolve_holds; assumption.
+Qed.
+
+Lemma gen_resolve_comm d1 d2 :
+  resolve_dtype (PDtype d1) (PDtype d2) = resolve_dtype (PDtype d2) (PDtype d1).
+Proof. rewrite !resolve_refines. f_equal. apply resolve_comm. Qed.
+
+(* the n-ary loops, expressed with the regenerated binary kernel *)
+Definition gen_resolve (a b : dtype) : dtype :=
+  match resolve_dtype (PDtype a) (PDtype b) with PDtype r => r | _ => DObj end.
+
+Lemma gen_resolve_eq a b : gen_resolve a b = resolve a b.
+Proof. unfold gen_resolve. rewrite resolve_refines. reflexivity. Qed.
+
+Lemma nary_no_loss ds acc v :
+  wf_dtype acc = true -> Forall (fun d => wf_dtype d = true) ds ->
+  fold_ok acc ds = true -> fold_fits acc ds v = true ->
+  holds acc v = true \/ Exists (fun d => holds d v = true) ds ->
+  resolve_iter_loop acc ds = fold_left gen_resolve ds acc /\
+  concat_loop acc ds = fold_left gen_resolve ds acc /\
+  holds (fold_left gen_resolve ds acc) v = true.
+Proof.
+  intros Wa Wd Hok Hfit Hh.
+  assert (E : fold_left gen_resolve ds acc = resolve_all acc ds).
+  { unfold resolve_all. clear. revert acc. induction ds as [|d ds IH]; intros acc; [reflexivity|].
+    cbn [fold_left]. rewrite gen_resolve_eq. apply IH. }
+  rewrite E. repeat split.
+  - apply resolve_iter_loop_spec.
+  - apply concat_loop_spec.
+  - apply resolve_all_holds; assumption.
+Qed.
+
+(* util.dtype_to_fill_value: the dummy fill value is a member of the dtype it is computed for (bytes dtypes get the
+   str '' -- the str/bytes mix the property excludes) *)
+Lemma gen_fill_value_held d : wf_dtype d = true -> (forall n, d <> DBytes n) ->
+  exists e, decode_elem (dtype_to_fill_value (PDtype d)) = Some e /\ holds d (elem_val e) = true.
+Proof.
+  intros W NB. destruct d as [|s b|b|b|n|n|u|u|]; try destruct s; try (exfalso; eapply NB; reflexivity);
+    (eexists; split; [vm_compute; reflexivity|]); try reflexivity;
+    cbn [holds elem_val wf_dtype slen String.length Z.of_nat] in *; try lia;
+    try (destruct u; reflexivity);
+    repeat (apply orb_true_iff in W as [W|W]); apply Z.eqb_eq in W; subst b; reflexivity.
+Qed.
+
+(* the decision `resolved = object` of util.prepare_iter_for_array, read from the source, is the model's *)
+Lemma gen_iter_object_cond_eq t s n i b :
+  gen_iter_object_cond t false s n i b = t || (s && n) || (b && i).
+Proof. destruct t, s, n, i, b; reflexivity. Qed.
+
+(* an integer that the loop does not flag as big is exactly representable in float64 *)
+Lemma gen_threshold_exact z :
+  INT_MAX_COERCIBLE_TO_FLOAT = GEN_INT_MAX_COERCIBLE_TO_FLOAT /\
+  (Z.abs z <= GEN_INT_MAX_COERCIBLE_TO_FLOAT -> holds (DFlt 8) (XInt z) = true).
+Proof.
+  split; [reflexivity|]. intros H. cbn [holds]. unfold fl_fits. cbn [fmt_of_bytes Z.eqb].
+  change (fmt_of_bytes 8) with (Some (53, 1024, -1074)).
+  apply int_fits with (k := 53); try lia.
+  unfold GEN_INT_MAX_COERCIBLE_TO_FLOAT in H. change (2 ^ 53) with 9007199254740992. lia.
 Qed.
